@@ -486,18 +486,28 @@ void add_vmessage (object_t * who, char *format, ...) {
   if ((ip->message_length != 0) && !flush_message (ip))
     debug_message ("Broken connection during add_message.\n");
 
-  /* snoop handling. */
-  if (ip->snoop_by)
-    receive_snoop (str, ip->snoop_by->ob);
-
-  free (str);
-
 #ifdef FLUSH_OUTPUT_IMMEDIATELY
   flush_message (ip);
 #endif
 
   add_message_calls++;
-}				/* add_message() */
+
+  /* snoop handling. This is the last thing done here, and str is released before the
+   * snooper is called with its copy: receive_snoop() runs LPC code, which can raise an
+   * error (that does not come back here) or destruct `who' (ip is freed then).
+   */
+  if (ip->snoop_by)
+    {
+      object_t *snooper = ip->snoop_by->ob;
+
+      copy_and_push_string (str);
+      free (str);
+      apply (APPLY_RECEIVE_SNOOP, snooper, 1, ORIGIN_DRIVER);
+      return;
+    }
+
+  free (str);
+}				/* add_vmessage() */
 
 
 /*
